@@ -580,6 +580,9 @@ let () =
           (match !xr with
            | Ok x -> ignore (xstep x XCopy); add " ok"
            | e -> add (" noxattr=" ^ status_str e))
+        | "DC" ->   (* sqfs_copy of the data reader: the identity on the model state (Properties_C10 data_copy_exact:
+                       the repaired copy is the source state when the buffers are zero beyond their valid counts) *)
+          add " ok"
         | "U" ->
           (match idt with
            | Ok t ->
